@@ -1,19 +1,15 @@
 SPECIFICATION Spec
 CONSTANTS
-  PART = "cache"
+  PART = "call"
   CELLS <- CELLS_q
   GENS <- GENS_q
   ROTS <- ROTS_id
-  MaxDepth = 6
+  MaxDepth = 0
   FORGET = {}
   NOCOPY = {}
   OBJ = "grain"
   ALIASARG = FALSE
-  UNWRITTEN = {}
+  UNWRITTEN <- UNW_b_lower
   EmitMode = 0
-INVARIANT Coherent
-INVARIANT ReadFresh
-INVARIANT DepClosed
-INVARIANT CacheType
-INVARIANT UbiOwn
+INVARIANT CallDefined
 CHECK_DEADLOCK FALSE
